@@ -167,6 +167,49 @@ class Held:
         return "" if same else " !rebound"
 
 
+def expand(case):
+    """ops with every `u` (queue the SAME Packet object again) written as the `t` it repeats: the bytes the packet had
+    when it was made — what the peer must receive however often and to whomever the object is queued"""
+    made, out = [], []
+    srv = case["kind"] == "srv"
+    for tok in case["ops"]:
+        if tok[0] == "t":
+            made.append(tok[1:].split(":")[1] if srv else tok[1:])
+            out.append(tok)
+        elif tok[0] == "u":
+            if srv:
+                ca, idx = tok[1:].split(":")
+                if not made:
+                    made.append("-")
+                out.append("t%s:%s" % (ca, made[int(idx) % len(made)]))
+            else:
+                if not made:
+                    made.append("-")
+                out.append("t" + made[int(tok[1:]) % len(made)])
+        else:
+            out.append(tok)
+    return out
+
+
+class Pool:
+    """the caller's Packet objects: made once, possibly queued many times; must read unchanged afterwards"""
+    def __init__(self, packeting, stack):
+        self.packeting, self.stack, self.made = packeting, stack, []
+
+    def new(self, data):
+        pk = self.packeting.Packet(stack=self.stack, packed=data)      # .packed is a bytearray
+        self.made.append((pk, bytes(data)))
+        return pk
+
+    def again(self, idx):
+        if not self.made:
+            return self.new(b"")
+        return self.made[idx % len(self.made)][0]
+
+    def mutated(self):
+        return "" if all(bytes(pk.packed) == orig for pk, orig in self.made) else " !mutated"
+
+
 def ca_of(n):
     return ("127.0.0.1", 6000 + n)
 
@@ -186,11 +229,11 @@ class CHECK(core.Check):
     N_SEARCH = 3000
     RULE = ("call sequences on a real TcpClientStack (kind cli), a ClientStreamStack over a plain handler double (kind cs: the "
             "base Stack loops) or TcpServerStack with 1..3 connections (kind srv): "
-            "transmit of 1..6 packets of 0..6 bytes (empty packets included), ~40% of cases with caller-supplied txPkts/rxPkts deques and txbs/rxbs bytearrays (the producer appends to ITS deque; everything observed through the caller's references, identity checked after every call), service calls whose every socket send/recv is answered from a script "
+            "transmit of 1..6 packets of 0..6 bytes (empty packets included; .packed is a bytearray), the SAME Packet object queued again / to several peers (op u) with the caller's objects checked unchanged after every call, ~40% of cases with caller-supplied txPkts/rxPkts deques and txbs/rxbs bytearrays (the producer appends to ITS deque; everything observed through the caller's references, identity checked after every call), service calls whose every socket send/recv is answered from a script "
             "(accept k bytes, would block, connection lost, ~5% other error = malformed; data chunks, close), arbitrary "
             "interleavings of serviceTxPkts / serviceTxesAllIx / serviceReceivesAllIx / serviceReceives / serviceConnects; "
             "base Packet (whole buffer) in ~80% and a length-prefixed Packet subclass (parserize override) in ~20%. "
-            "Bounded-exhaustive: client stack, <= 2 packets of <= 3 bytes x every script of <= 3 answers from "
+            "Bounded-exhaustive: one Packet object queued to two peers / twice, every pair of cuts of the first send on each connection; client stack, <= 2 packets of <= 3 bytes x every script of <= 3 answers from "
             "{a1,a2,a9,w,l} for two service calls (quick: first call only). Non-trivial = at least one partial send or "
             "would-block and at least 2 bytes delivered in some direction; distinct by call sequence.")
     TRUSTED = ["correspondence: real stacking.TcpClientStack/TcpServerStack over real clienting.Client, serving.Server/Incomer "
@@ -289,6 +332,9 @@ class CHECK(core.Check):
             if r < 0.35:
                 ops.append("t" + hx(self._data(rng)))
                 npk += 1
+                if rng.random() < 0.3:              # the SAME Packet object queued again
+                    ops.append("u%d" % rng.randrange(npk))
+                    npk += 1
             elif r < 0.65:
                 ops.append("P" + self._sends(rng, npk, fail))
             elif r < 0.72:
@@ -315,7 +361,10 @@ class CHECK(core.Check):
                 ops.append("a%d" % ca)
             elif r < 0.40:
                 ca = rng.choice(live if rng.random() < 0.95 else [9])
-                ops.append("t%d:%s" % (ca, hx(self._data(rng))))
+                ops.append("t%d:%s" % (ca, hx(self._data(rng, 1, 6))))
+                if rng.random() < 0.4:              # the SAME Packet object to another peer (broadcast) or once more
+                    for other in (live if rng.random() < 0.5 else [rng.choice(live)]):
+                        ops.append("u%d:%d" % (other, rng.randrange(8)))
             elif r < 0.55:
                 ops.append("P")
             elif r < 0.70:
@@ -354,6 +403,7 @@ class CHECK(core.Check):
                    else self._srv_case(rng, False))
 
     def exhaustive(self, tier):
+        yield from self._broadcast_cuts(tier)
         answers = ["a1", "a2", "a9", "w", "l"]
         pk_sets = [[b"\x01"], [b"\x01\x02\x03"], [b"\x01\x02", b"\x03"], [b"\x01", b"\x02\x03\x04"]]
         scripts = [",".join(s) for n in range(0, 4) for s in itertools.product(answers, repeat=n)]
@@ -365,6 +415,23 @@ class CHECK(core.Check):
                         continue
                     yield {"kind": "cli", "parser": "whole", "share": (len(s1) + len(s2)) % 2 == 1,
                            "ops": ["c"] + ["t" + hx(p) for p in pks] + ["P" + s1, "P" + s2, "Pa9,a9,a9"]}
+
+    def _broadcast_cuts(self, tier):
+        """one Packet OBJECT queued to two peers (and twice to one), every pair of cuts of the first send on each
+        connection, then everything accepted: each peer must get the packet's bytes as they were when queued"""
+        nmax = 4 if tier == "thorough" else 3
+        for n in range(1, nmax + 1):
+            data = hx(bytes(range(1, n + 1)))
+            for k1 in range(0, n + 1):
+                for k2 in range(0, n + 1):
+                    for plan in (["t1:" + data, "u2:0"], ["t1:" + data, "u1:0"], ["t2:" + data, "u1:0", "u2:0"]):
+                        yield {"kind": "srv", "parser": "whole", "share": (k1 + k2) % 2 == 1,
+                               "ops": ["a1", "a2"] + plan + ["P", "X1=a%d;2=a%d" % (k1, k2), "X1=a9,a9,a9;2=a9,a9,a9"]}
+        for n in range(1, nmax + 1):
+            data = hx(bytes(range(1, n + 1)))
+            for k1 in range(0, n + 1):
+                yield {"kind": "cli", "parser": "whole", "share": k1 % 2 == 1,
+                       "ops": ["c", "t" + data, "u0", "Pa%d" % k1, "Pa9,a9,a9"]}
 
     # ---- implementation
     def impl(self, case):
@@ -414,6 +481,7 @@ class CHECK(core.Check):
             boxes = boxes_for(case)
             stack = (FramedClient if framed else stacking.TcpClientStack)(ha=SRV_HA, **boxes)
             held = Held(stack, boxes)
+            pool = Pool(packeting, stack)
             out = []
             for tok in case["ops"]:
                 k, arg = tok[0], tok[1:]
@@ -423,8 +491,8 @@ class CHECK(core.Check):
                 try:
                     if tok == "c":
                         stack.serviceConnect()
-                    elif k == "t":
-                        pk = packeting.Packet(stack=stack, packed=unhx(arg))
+                    elif k in "tu":
+                        pk = pool.new(unhx(arg)) if k == "t" else pool.again(int(arg))
                         if boxes and len(held.txPkts) % 2:     # the producer appends to ITS queue
                             held.txPkts.append(pk)
                         else:
@@ -449,7 +517,7 @@ class CHECK(core.Check):
                 out.append("%s wire=%s txbs=%s q=%s rxbs=%s rx=%s dl=%s c=%d x=%d%s" % (
                     err, hx(socks[-1].wire), hx(held.txbs), ",".join(hx(p.packed) for p in held.txPkts),
                     hx(held.rxbs), ",".join(hx(p.packed) for p in held.rxPkts), hx(socks[-1].delivered),
-                    bool(stack.handler.connected), bool(stack.handler.cutoff), held.rebound()))
+                    bool(stack.handler.connected), bool(stack.handler.cutoff), held.rebound() + pool.mutated()))
             return out or ["-"]
         finally:
             clienting.socket = saved
@@ -470,6 +538,7 @@ class CHECK(core.Check):
         boxes = boxes_for(case)
         stack = (FramedCS if framed else stacking.ClientStreamStack)(handler=h, **boxes)
         held = Held(stack, boxes)
+        pool = Pool(packeting, stack)
         if not case["ops"] or case["ops"][0] != "c" or "c" in case["ops"][1:]:
             raise ValueError("bad-op")       # the handler is opened by Stack.__init__: `c` comes first, once
         out = []
@@ -482,8 +551,8 @@ class CHECK(core.Check):
             try:
                 if tok == "c":
                     stack.reopen()
-                elif k == "t":
-                    pk = packeting.Packet(stack=stack, packed=unhx(arg))
+                elif k in "tu":
+                    pk = pool.new(unhx(arg)) if k == "t" else pool.again(int(arg))
                     if boxes and len(held.txPkts) % 2:
                         held.txPkts.append(pk)
                     else:
@@ -508,7 +577,7 @@ class CHECK(core.Check):
             out.append("%s wire=%s txbs=%s q=%s rxbs=%s rx=%s dl=%s c=%d x=0%s" % (
                 err, hx(h.wire), hx(held.txbs), ",".join(hx(p.packed) for p in held.txPkts),
                 hx(held.rxbs), ",".join(hx(p.packed) for p in held.rxPkts), hx(h.delivered), bool(h.opened),
-                held.rebound()))
+                held.rebound() + pool.mutated()))
         return out or ["-"]
 
     def _impl_srv(self, case):
@@ -530,6 +599,7 @@ class CHECK(core.Check):
             boxes = boxes_for(case)
             stack = (FramedServer if framed else stacking.TcpServerStack)(ha=SRV_HA, **boxes)
             held = Held(stack, boxes)
+            pool = Pool(packeting, stack)
             out = []
             for tok in case["ops"]:
                 k, arg = tok[0], tok[1:]
@@ -549,9 +619,9 @@ class CHECK(core.Check):
                             stack.serviceConnects()
                     elif tok == "C":
                         stack.serviceConnects()
-                    elif k == "t":
+                    elif k in "tu":
                         ca, h = arg.split(":")
-                        pk = packeting.Packet(stack=stack, packed=unhx(h))
+                        pk = pool.new(unhx(h)) if k == "t" else pool.again(int(h))
                         if boxes and len(held.txPkts) % 2:
                             held.txPkts.append((pk, ca_of(int(ca))))
                         else:
@@ -587,7 +657,7 @@ class CHECK(core.Check):
                 out.append("%s ix=%s q=%s rx=%s" % (
                     err, "/".join(ixs),
                     ",".join("%d:%s" % (n_of(ca), hx(p.packed)) for p, ca in held.txPkts),
-                    ",".join("%d:%s" % (n_of(ca), hx(p.packed)) for p, ca in held.rxPkts)) + held.rebound())
+                    ",".join("%d:%s" % (n_of(ca), hx(p.packed)) for p, ca in held.rxPkts)) + held.rebound() + pool.mutated())
             return out or ["-"]
         finally:
             serving.socket = saved
@@ -595,7 +665,7 @@ class CHECK(core.Check):
     # ---- model
     def requests(self, case):
         kind = "cli" if case["kind"] == "cs" else case["kind"]     # same loops, guard `handler.opened`
-        return ["%s repaired %s %s" % (kind, case["parser"], " ".join(case["ops"]))]
+        return ["%s repaired %s %s" % (kind, case["parser"], " ".join(expand(case)))]
 
     def model_post(self, case, replies):
         return replies[0].split(" | ")
@@ -625,9 +695,13 @@ class CHECK(core.Check):
         if len(out) != len(case["ops"]):
             return "implementation answered %d of %d calls" % (len(out), len(case["ops"]))
         for tok, line in zip(case["ops"], out):
-            if line.endswith("!rebound"):
+            if "!rebound" in line:
                 return ("after %s the stack no longer uses the queue/buffer objects it had (a caller-supplied container or a "
                         "saved reference is orphaned)" % tok[:12])
+            if "!mutated" in line:
+                return ("after %s a Packet object the caller queued no longer reads as it did when it was queued (the stack "
+                        "or transport changed the caller's .packed in place)" % tok[:12])
+        case = dict(case, ops=expand(case))      # `u` = the same bytes queued again
         if not self._no_fail(case):
             return None
         return self._oracle_cli(case, out) if case["kind"] in ("cli", "cs") else self._oracle_srv(case, out)
